@@ -842,8 +842,15 @@ def macro_cycle_use(use, names, kinds):
 
 
 def macro_cycle_files():
-    """seed-independent: cycle lengths 2..4 x {all object-like, all function-like, alternating} x every use"""
+    """seed-independent: cycle lengths 2..4 x {all object-like, all function-like, alternating} x every use, plus
+    self-definitions and 2-cycles of the names the #if evaluator treats specially"""
     out = []
+    for i, w in enumerate((b"false", b"true", b"defined", b"__has_include", b"__FILE__", b"__LINE__", b"L", b"__VA_ARGS__",
+                           b"__cplusplus", b"and", b"not", b"int", b"sizeof")):
+        for body, lab in ((w, "self"), (b"CYK", "two")):
+            text = b"#define " + w + b" " + body + b"\n" + (b"#define CYK " + w + b"\n" if lab == "two" else b"") + \
+                   b"#if " + w + b"\nint a;\n#elif CYK\n#endif\n#if defined(" + w + b") || " + w + b"(1)\n#endif\nint v = " + w + b";\n"
+            out.append(("cycle_kw_%s_%s" % (w.decode(), lab), text))
     for n in (2, 3, 4):
         for pat in ("o", "f", "of"):
             kinds = [pat[i % len(pat)] for i in range(n)]
